@@ -173,14 +173,21 @@ def shard(col, shard_i, ngrammars, ninputs, exhaustive_len):
         if exhaustive_len and gi % 4 == 0:
             texts = texts + all_op_strings(exhaustive_len)
         ref = Ref(g, kind) if kind in REF_KINDS else None
+        # a third of the grammars run with a semantics object on the recursive rules: tagging, or returning a plain list
+        # holding the node (the seed of the next round is then a list the caller must not extend)
+        semspec = ('none', {})
+        if gi % 3 == 1:
+            names = [n for n, _, _ in g['rules'] if n not in ('start', 'term', 'factor')]
+            semspec = ('none', {n: rng.choice(['wrap', 'wrap', 'tag', 'identity']) for n in names if rng.random() < 0.8})
+            col.count('semantics.' + '+'.join(sorted(set(semspec[1].values())) or ['none']))
         for t in texts:
-            cases.append(R.Case(g, t, tag=kind))
-            refs.append(ref)
+            cases.append(R.Case(g, t, None, None, semspec, tag=kind))
+            refs.append(ref if semspec == ('none', {}) else None)
     results = []
     for off in range(0, len(cases), 400):
         results += R.run_cases(mr, cases[off:off + 400])
     for (c, io, mo, extra), ref in zip(results, refs):
-        fp = [E.grammar_text(c.g), c.text]
+        fp = [E.grammar_text(c.g), c.text, repr(c.semspec)]
         if mo is None:
             col.case(fp, nontrivial=False)
             col.count('uncompilable')
@@ -202,6 +209,17 @@ def shard(col, shard_i, ngrammars, ninputs, exhaustive_len):
             col.violation(f'E1lrec:{c.tag}:{R.kinds_signature(small)}:impl={rr[1][0]}:model={rr[2][0] if rr[2] else None}',
                           'implementation and model disagree on a left-recursive grammar',
                           {'correspondence': 'E1 left recursion', 'case': small.describe(), 'impl': rr[1], 'model': rr[2]})
+        # the generated parser must agree with the model on success / failure and, where C02's known binding differences
+        # cannot arise (no names in these templates except the 'named' kind), on the value
+        if col.rng.random() < 0.25:
+            go, _ = R.gen_outcome(c)
+            col.count('genparser.compared')
+            if isinstance(go, tuple) and go and go[0] in ('ok', 'fail', 'exc', 'recursion') and io[0] in ('ok', 'fail'):
+                differs = go[0] != io[0] or (c.tag != 'named' and go != io)
+                if differs:
+                    col.violation(f'oracle:generated-parser:{c.tag}:{io[0]}-vs-{go[0]}',
+                                  'the generated parser and the in-memory model disagree on a left-recursive grammar',
+                                  {'oracle': 'generated parser vs model.parse', 'case': c.describe(), 'model.parse': io, 'generated': go})
         if ref is not None:
             want = ref.parse(c.text)
             col.count('ref.compared')
